@@ -339,7 +339,7 @@ func genBase(r *vgen.Rand) *scenario {
 	return sc
 }
 
-const numMutations = 38
+const numMutations = 39
 
 func otherClassIndex(r *vgen.Rand, p TRC, notKind int) (int64, bool) {
 	var idx []int
@@ -646,6 +646,14 @@ func mutate(r *vgen.Rand, sc *scenario, k int) string {
 			}
 		}
 		return "predecessor-invalid"
+	case 38:
+		// one required signature is missing, another one is there twice
+		if len(sc.sis) >= 2 {
+			i := r.Intn(len(sc.sis))
+			j := (i + 1 + r.Intn(len(sc.sis)-1)) % len(sc.sis)
+			sc.sis[i] = sc.sis[j]
+		}
+		return "signature-replaced-by-copy-of-another"
 	}
 	return "?"
 }
@@ -775,9 +783,9 @@ func main() {
 	run.ShardSize = 60
 	run.Rule = "updates: a valid predecessor (base or update, 1-3 sensitive, 1-3 regular, 1-2 root certificates) and a " +
 		"well-formed completely signed regular or sensitive successor (re-keyed / added / removed certificates, changed " +
-		"quorum and AS lists, reordered certificates), then 0-2 of 38 mutations (ISD/base/serial/noTrustReset, votes: too few, " +
+		"quorum and AS lists, reordered certificates), then 0-2 of 39 mutations (ISD/base/serial/noTrustReset, votes: too few, " +
 		"duplicated, wrong class, out of range, none; signer infos: dropped, corrupted, other key, other payload, unsupported " +
-		"version, by key id, doubled, unrelated; every rule of a regular update; no predecessor; invalid payload; invalid " +
+		"version, by key id, doubled, replaced by a copy of another, unrelated; every rule of a regular update; no predecessor; invalid payload; invalid " +
 		"predecessor); base TRCs signed by all voters with signature mutations; real DER TRCs and CMS SignedData are " +
 		"encoded and decoded before SignedTRC.Verify; verdict, rejecting stage, error class and the Update " +
 		"(type, new voters, votes, root acknowledgements) compared; non-trivial = every case"
